@@ -26,6 +26,8 @@ DQPre(o, s) ==
   /\ (o.op \in {"front", "back", "remove-front", "remove-back", "ref"} => s[o.v] # <<>>)
   /\ (o.op \in {"append", "append3"} => Len(s[o.v]) + Len(s[o.w]) <= 40)
   /\ (o.op = "append-map" => Len(s[o.v]) <= 30)
+  /\ (o.op = "ref" => o.x < Len(s[o.v]))
+  /\ (o.op \in {"take", "take-right", "drop", "drop-right", "split-at"} => o.x <= Len(s[o.v]))
 DQEval(o, s, M) ==
   LET A == s[o.v]  C == s[o.w]  n == Len(s[o.v])
       P(e) == Pred(o.x, o.k, e)
